@@ -131,6 +131,7 @@ static void sp_squeeze(const Args &a) {
     else if (k == "kdf") ascon_kdf_squeeze((ascon_kdf_state_t *)m, out.p, n);
     else if (k == "kdfa") ascon_kdfa_squeeze((ascon_kdfa_state_t *)m, out.p, n);
     else fatal("sp.squeeze kind");
+    reg_store(a, out.get(n));
     Ev ev("sp.squeeze"); ev.s("kind", k).n("obj", id).n("n", (long long)n).b("out", out.get(n)).n("guard", out.guards_ok());
     dump_sp(ev, m); ev.emit();
 }
@@ -226,6 +227,7 @@ static void os_prf(const Args &a) {
 static void os_mac_verify(const Args &a) {
     bytes_t key = a.hex("key"), d = a.hex("in"), tag = a.hex("tag");
     if (key.size() != 16 || tag.size() != 16) fatal("mac_verify sizes");
+    if (a.has("flip")) { long long b = a.num("flip"); tag[(size_t)(b / 8)] ^= (uint8_t)(1u << (b % 8)); }
     InBuf kb(key), in(d, a.num("null_if_empty") != 0), tb(tag);
     int ret = ascon_mac_verify(tb.p, in.p, in.n, kb.p);
     Ev ev("os.mac_verify"); ev.b("key", key).b("in", d).b("tag", tag).n("ret", ret); ev.emit();
